@@ -37,6 +37,7 @@ type treeTxn struct {
 	canNote bool
 	ops     int
 	pend    []*treeWatch // watch channels obtained through the open transaction
+	clog    []string     // keys changed, in order
 }
 
 type heldIter struct {
@@ -71,6 +72,8 @@ type treeWatch struct {
 	// the channel)
 	fromTxn bool
 	selfAny bool
+	at      int  // number of changes the transaction had made at the hand-out
+	selfHit bool // Txn.Prefix only: the transaction changed a key under the prefix after the hand-out
 }
 
 type treeWorld struct {
@@ -308,7 +311,7 @@ func (w *treeWorld) pollWatches(step string) bool {
 		must, anyChange := chainChanged(tw.origin, match)
 		if tw.fromTxn && tw.selfAny {
 			anyChange = true
-			if tw.kind == wRoot {
+			if tw.kind == wRoot || tw.selfHit {
 				// Txn.RootWatch is the root channel of the tree the transaction started from
 				must = true
 			}
@@ -594,6 +597,7 @@ func (w *treeWorld) txnOp(tx *treeTxn) bool {
 			}
 			tx.model[k] = v
 			tx.changed[k] = true
+			tx.clog = append(tx.clog, k)
 			delete(tx.lastIW, k)
 		}
 		w.probe("insert-burst")
@@ -618,6 +622,7 @@ func (w *treeWorld) txnOp(tx *treeTxn) bool {
 			}
 			delete(tx.model, k)
 			tx.changed[k] = true
+			tx.clog = append(tx.clog, k)
 			delete(tx.lastIW, k)
 			if i%7 == 6 && !w.checkOps("open transaction inside delete burst", tx.txn, tx.model, 1) {
 				return false
@@ -644,6 +649,7 @@ func (w *treeWorld) txnOp(tx *treeTxn) bool {
 		}
 		tx.model[k] = val
 		tx.changed[k] = true
+		tx.clog = append(tx.clog, k)
 		r.Logf("txn Insert(%q)=%d had=%v", k, val, had)
 	case 2, 3: // Modify / ModifyWatch
 		var old, nv int
@@ -668,6 +674,7 @@ func (w *treeWorld) txnOp(tx *treeTxn) bool {
 		}
 		tx.model[k] = want
 		tx.changed[k] = true
+		tx.clog = append(tx.clog, k)
 		r.Logf("txn Modify(%q)->%d had=%v", k, want, had)
 	case 4: // Delete, biased to present keys
 		if len(tx.model) > 0 && c.Choose(3) != 0 {
@@ -683,6 +690,7 @@ func (w *treeWorld) txnOp(tx *treeTxn) bool {
 		if mh {
 			delete(tx.model, k)
 			tx.changed[k] = true
+			tx.clog = append(tx.clog, k)
 		} else {
 			w.probe("delete-absent")
 		}
@@ -735,7 +743,7 @@ func (w *treeWorld) txnOp(tx *treeTxn) bool {
 			return false
 		default:
 		}
-		tx.pend = append(tx.pend, &treeWatch{id: w.next, ch: ch, kind: kind, key: q, fromTxn: true})
+		tx.pend = append(tx.pend, &treeWatch{id: w.next, ch: ch, kind: kind, key: q, fromTxn: true, at: len(tx.clog)})
 		w.next++
 		w.probe("watch-through-open-txn")
 		r.Logf("txn watch %d(%q) obtained", kind, q)
@@ -841,6 +849,15 @@ func (w *treeWorld) link(tx *treeTxn, nv *ver) {
 	for _, tw := range tx.pend {
 		tw.origin = nv
 		tw.selfAny = len(tx.changed) > 0
+		if tw.kind == wPrefix {
+			// Txn.Prefix freezes the tree: whatever the transaction changes under the prefix afterwards
+			// goes through fresh clones, so the channel handed out closes with the notification
+			for _, k := range tx.clog[tw.at:] {
+				if strings.HasPrefix(k, tw.key) {
+					tw.selfHit = true
+				}
+			}
+		}
 		if len(w.watches) >= 40 {
 			w.watches = w.watches[1:]
 		}
